@@ -20,7 +20,8 @@ STRATS = [None, "by_label"]
 def _source(src):
     from score_analysis import Scores
 
-    return Scores(np.asarray(src["pos"], dtype=float), np.asarray(src["neg"], dtype=float),
+    dt = src.get("dtype") or float
+    return Scores(np.asarray(src["pos"], dtype=dt), np.asarray(src["neg"], dtype=dt),
                   nb_easy_pos=src["ep"], nb_easy_neg=src["en"], score_class=src["sc"],
                   equal_class=src["ec"])
 
@@ -126,9 +127,19 @@ def _sources(draw, min_class=1, max_size=20, allow_empty=False, big=True):
         vals = [0.5 * k - 7 for k in ks]
     else:
         vals = [k / 2 for k in draw(st.lists(st.integers(-3, 3), min_size=n + m, max_size=n + m))]
-    ez = st.one_of(st.just(0), st.just(0), st.integers(1, 5), st.integers(6, 150))
+    # few scored samples next to many easy ones (the dynamic switch counts *scored* samples)
+    ez = st.one_of(st.just(0), st.just(0), st.integers(1, 5), st.integers(6, 150), st.integers(100, 600))
     sc, ec = draw(gen.CONFIG)
-    return dict(pos=vals[:n], neg=vals[n:], ep=draw(ez), en=draw(ez), sc=sc, ec=ec)
+    dtype = None
+    if kind == "small" and draw(st.integers(0, 4)) == 0:
+        # quantised scores in an unsigned / narrow dtype (values are their own float images)
+        dtype = draw(st.sampled_from(["uint8", "uint16", "int8", "float32", "bool"]))
+        hi = 1 if dtype == "bool" else 100
+        if distinct and n + m <= hi + 1:
+            vals = [float(v) for v in draw(st.permutations(list(range(hi + 1))))[: n + m]]
+        else:
+            vals = [float(v) for v in draw(st.lists(st.integers(0, hi), min_size=n + m, max_size=n + m))]
+    return dict(pos=vals[:n], neg=vals[n:], ep=draw(ez), en=draw(ez), sc=sc, ec=ec, dtype=dtype)
 
 
 @st.composite
@@ -139,7 +150,7 @@ def _wf_cases(draw):
     if method == "proportion":
         cfg["ratio"] = draw(st.one_of(st.sampled_from([0.1, 0.5, 0.9, 0.3333]),
                                       st.floats(min_value=0.01, max_value=0.99)))
-    if method in ("replacement", "dynamic") and src["pos"] and src["neg"]:
+    if method in ("replacement", "dynamic") and src["pos"] and src["neg"] and src.get("dtype") != "bool":
         cfg["smoothing"] = draw(st.sampled_from([False, False, True]))
     return dict(src=src, cfg=cfg, seed=draw(gen.RNG_SEED), reps=draw(st.integers(1, 6)))
 
@@ -176,6 +187,10 @@ def check_wellformed(case):
         labels.append("around-switch")
     if n == 0 or m == 0:
         labels.append("empty-class")
+    if src.get("dtype"):
+        labels.append(f"dtype:{src['dtype']}")
+    if (n < 100 or m < 100) and n + src["ep"] >= 100 and m + src["en"] >= 100:
+        labels.append("few-hard-many-easy")
     return dict(nontrivial=len(set(src["pos"])) >= 3 and len(set(src["neg"])) >= 3, labels=labels)
 
 
